@@ -181,6 +181,12 @@ def step (st : St) : List String → St × String
           | none => "err notfound"
         ({ st with b := b }, rs ++ " " ++ fmtB b)
       | none => (st, "bad-op")
+  | ["svflow", fail] =>
+      -- SaveBlock of a block with one new transaction, the save processors succeeding or not
+      let u : UIdx := ⟨[], [], ⟨[], 100000, 10000, false⟩⟩
+      let u1 := u.saveBlock [] 4 [⟨1, 1, true, false, []⟩] (fail != "1")
+      let f := match u1.cache.fetch u1.txdb 1 with | some _ => "ok" | none => "err"
+      (st, s!"saved={if fail = "1" then "err" else "ok"} fetch={f}")
   | ["rgflow", keep] =>
       -- node-level reorganisation: T is looked up through the reference cache, then the chain reorganises
       -- (reorganizeChain: CleanCache, then T is on the new branch or not), then the same lookup again
